@@ -123,6 +123,73 @@ fn suite_checks<S: HSuite>(ctx: &Ctx, ml: &[usize], dl: &[usize], full_every: u6
     );
 }
 
+fn suite_interleaving(ctx: &Ctx) {
+    let inputs: Vec<(Vec<u8>, Vec<u8>)> = vec![(b"".to_vec(), b"QUUX-V01-CS02-with-suite".to_vec()), (fill(65, 0), rfc_dst(43, 0)), (fill(3, 1), rfc_dst(255, 0))];
+    // variant = (group, mode, expander)
+    let variants: Vec<(usize, bool, Expander)> = (0..16).map(|v| (v & 1, (v >> 1) & 1 == 0, EXPANDERS[v >> 2])).collect();
+    // expected affine outputs from the reference pipeline (cofactor clearing through the library stage, see above)
+    let expect1 = |ro: bool, h: Expander, msg: &[u8], dst: &[u8]| -> Pt<Q1> {
+        let tables = RG1::lib_iso();
+        let us = RG1::ref_field(h, msg, dst, if ro { 2 } else { 1 });
+        let mut acc = Pt::Inf;
+        for u in &us {
+            acc = e1().add(&acc, &ref_iso(&tables, &RG1::ref_sswu(u).0));
+        }
+        let mut j = RG1::rep(&acc, &Q1::from_u64(5));
+        RG1::lib_clear_h(&mut j);
+        RG1::pt_of(&j)
+    };
+    let expect2 = |ro: bool, h: Expander, msg: &[u8], dst: &[u8]| -> Pt<Q2> {
+        let tables = RG2::lib_iso();
+        let us = RG2::ref_field(h, msg, dst, if ro { 2 } else { 1 });
+        let mut acc = Pt::Inf;
+        for u in &us {
+            acc = e2().add(&acc, &ref_iso(&tables, &RG2::ref_sswu(u).0));
+        }
+        let mut j = RG2::rep(&acc, &Q2::from_u64(5));
+        RG2::lib_clear_h(&mut j);
+        RG2::pt_of(&j)
+    };
+    ctx.sweep(
+        "suite_interleaving",
+        inputs.len() as u64,
+        |i| json!({"msg_len": inputs[i as usize].0.len(), "dst_len": inputs[i as usize].1.len(), "ordered_pairs_of_suites": 256}),
+        |i| {
+            let (msg, dst) = inputs[i as usize].clone();
+            let want1: Vec<Option<Pt<Q1>>> = variants.iter().map(|(g, ro, h)| if *g == 0 { Some(expect1(*ro, *h, &msg, &dst)) } else { None }).collect();
+            let want2: Vec<Option<Pt<Q2>>> = variants.iter().map(|(g, ro, h)| if *g == 1 { Some(expect2(*ro, *h, &msg, &dst)) } else { None }).collect();
+            let variants2 = variants.clone();
+            // a fresh thread: thread-local state starts empty; process-global state is shared with the rest of the run
+            let res: Result<(), String> = std::thread::spawn(move || {
+                for a in 0..16 {
+                    for b in 0..16 {
+                        for &v in &[a, b] {
+                            let (g, ro, h) = variants2[v];
+                            if g == 0 {
+                                let p = lib_hash_g1(h, ro, &msg, &dst);
+                                if Some(pt_of_g1(&p)) != want1[v] {
+                                    return Err(format!("G1 {:?} {} after suite variant #{} on the same (msg, tag)", h, if ro { "RO" } else { "NU" }, a));
+                                }
+                            } else {
+                                let p = lib_hash_g2(h, ro, &msg, &dst);
+                                if Some(pt_of_g2(&p)) != want2[v] {
+                                    return Err(format!("G2 {:?} {} after suite variant #{} on the same (msg, tag)", h, if ro { "RO" } else { "NU" }, a));
+                                }
+                            }
+                        }
+                    }
+                }
+                Ok(())
+            })
+            .join()
+            .map_err(|_| Fail::new("hashing panicked in the interleaving run"))?;
+            crate::infra::bump(511);
+            res.map_err(|e| Fail::new(format!("hash result depends on the calls made before it: {}", e)))?;
+            Ok("interleaved suites")
+        },
+    );
+}
+
 struct Vector {
     suite: &'static str,
     msg: &'static [u8],
@@ -136,6 +203,9 @@ pub fn run(ctx: &Ctx) -> (&'static str, &'static str) {
     let dl: Vec<usize> = if quick { vec![0, 16, 43, 255] } else { dst_lengths(false) };
     suite_checks::<RG1>(ctx, &ml, &dl, ctx.tier.pick(7, 3));
     suite_checks::<RG2>(ctx, &ml, &dl, ctx.tier.pick(61, 17));
+    // "depends only on (message, tag)": every ordered pair of the 16 suite variants evaluated back to back on the
+    // SAME message and tag in one fresh thread (a cache keyed too coarsely would hand the first result to the second)
+    suite_interleaving(ctx);
     // RFC 9380 Appendix J vectors (transcribed): J.9.1 (G1 RO), J.10.1 (G2 RO)
     let vectors = vec![
         Vector {
